@@ -1,4 +1,4 @@
-"""C14 -- rope's view of source text agrees with the tokenizer (RCA rules R14.1-R14.13)."""
+"""C14 -- rope's view of source text agrees with the tokenizer (RCA rules R14.1-R14.15)."""
 from __future__ import annotations
 
 import ast
@@ -214,6 +214,49 @@ def check(ctx, res) -> None:
                 "the rest of the line (the closing quote included) is skipped or the bracket depth is wrong, and logical lines disagree with the tokenizer",
                 function=al.qualname)
     res.floor("R14.13", "comment/bracket actions in _analyze_line", n13, 3)
+
+    # ---- R14.15 while a logical line is OPEN every physical line is analysed, blank ones included: a blank line ends a
+    # backslash continuation (`x = 1 \\` + blank line + next statement are two statements for the tokenizer).  Blank
+    # lines may be skipped only between logical lines.
+    gen = idx.need_func("rope.base.codeanalyze._CustomGenerator.__call__")
+    gcfg = CFG(gen.node)
+    appends = [nd for nd in gcfg.nodes if nd.kind == "stmt" and nd.ast is not None and any(
+        isinstance(c.func, ast.Attribute) and c.func.attr == "append" and c.args and isinstance(c.args[0], ast.Tuple) and len(c.args[0].elts) == 2
+        for c in calls_in(nd.ast))]
+    if not appends:
+        raise AnalysisError("anchor=_CustomGenerator.__call__: recording of a (start, end) pair not found")
+    first = next(c.args[0].elts[0] for nd in appends for c in calls_in(nd.ast) if isinstance(c.func, ast.Attribute) and c.func.attr == "append")
+    V = first.id if isinstance(first, ast.Name) else None
+    if V is None:
+        raise AnalysisError("anchor=_CustomGenerator.__call__: the start of the open logical line is not a local variable")
+    opening = [nd for nd in gcfg.nodes if nd.kind == "stmt" and isinstance(nd.ast, ast.Assign) and any(isinstance(t, ast.Name) and t.id == V for t in nd.ast.targets)
+               and not (isinstance(nd.ast.value, ast.Constant) and nd.ast.value.value is None)]
+    closing = [nd.id for nd in appends] + [nd.id for nd in gcfg.nodes if nd.kind == "stmt" and isinstance(nd.ast, ast.Assign)
+                                            and any(isinstance(t, ast.Name) and t.id == V for t in nd.ast.targets)
+                                            and isinstance(nd.ast.value, ast.Constant) and nd.ast.value.value is None]
+    closed_edges = []
+    for nd in gcfg.nodes:
+        if nd.kind == "test" and isinstance(nd.ast, ast.Compare) and isinstance(nd.ast.left, ast.Name) and nd.ast.left.id == V \
+                and isinstance(nd.ast.comparators[0], ast.Constant) and nd.ast.comparators[0].value is None:
+            lab = "true" if isinstance(nd.ast.ops[0], ast.Is) else "false" if isinstance(nd.ast.ops[0], ast.IsNot) else None
+            closed_edges += [(nd.id, d, l) for d, l in gcfg.succ[nd.id] if l == lab]
+    blank_tests = [nd for nd in gcfg.nodes if nd.kind == "test" and nd.ast is not None and any(
+        isinstance(c, ast.Call) and isinstance(c.func, ast.Attribute) and c.func.attr == "strip" for c in ast.walk(nd.ast))]
+    if not opening or not blank_tests:
+        raise AnalysisError("anchor=_CustomGenerator.__call__: opening of a logical line / blank-line test not found")
+    bad15 = None
+    for o in opening:
+        reach = set()
+        for b, _ in gcfg.succ[o.id]:
+            reach |= gcfg.reachable(b, avoid_nodes=closing, avoid_edges=closed_edges)
+        hit = [t for t in blank_tests if t.id in reach]
+        if hit:
+            bad15 = (o, hit[0])
+    res.add("R14.15", "_CustomGenerator.__call__|blank-lines-only-between-logical-lines", bad15 is None, f"{gen.unit.rel}:{(bad15[1] if bad15 else opening[0]).lineno}",
+            "blank lines are skipped only while no logical line is open" if bad15 is None else
+            f"the blank-line skip (line {bad15[1].lineno}) can be reached while a logical line opened at line {bad15[0].lineno} is still open: the blank line after "
+            "`x = 1 \\` is not analysed, the continuation flag stays set and the NEXT statement is merged into the logical line -- the tokenizer ends the "
+            "statement at the blank line", function=gen.qualname)
 
     # ---- R14.3
     tok_c, rope_c = rca.build(tokenize.Comment), rca.build(cmt)
@@ -480,3 +523,8 @@ def escape_parity_rule(ctx, res, rule: str) -> None:
                         "a quote/bracket after an even run (escaped backslashes, e.g. 'C:\\\\') is ignored, the scanner stays inside the string and all following "
                         "lines are merged into one logical line")
     res.floor(rule, "escape decisions on a captured backslash run", n5, 1)
+
+    # ---- R14.14 text handed back by the word finder is cut from the raw source, never from the blanked search text
+    from .common import raw_text_rule
+
+    raw_text_rule(ctx, res, "R14.14")
